@@ -106,7 +106,7 @@ for n, p in enumerate(req["programs"]):
     path = os.path.join(req["dir"], f"prog_{os.getpid()}_{n}.py")
     with open(path, "w") as f:
         f.write(p["src"])
-    perturb(req.get("junk", 0) // 4, f"p{n}")
+    perturb(min(req.get("junk", 0) // 4, 1500), f"p{n}")
     rec = {"id": p["id"]}
     try:
         spec = importlib.util.spec_from_file_location(f"prog_{n}", path)
